@@ -78,6 +78,9 @@ class Runner:
         self.harness_errors = []
         self.samples = []
         self.scratch = None
+        self.jobs = {}
+        self.world_memo = {}
+        self.iso_job_of = {}
 
     # ------------------------------------------------------------------ infrastructure
     def log(self, *a):
@@ -93,6 +96,8 @@ class Runner:
         out = {}
         if not jobs:
             return out
+        for j in jobs:
+            self.jobs[j.name] = j
         with concurrent.futures.ThreadPoolExecutor(max_workers=self.workers) as ex:
             futs = {ex.submit(self.run_job, j): j for j in jobs}
             for fut in concurrent.futures.as_completed(futs):
@@ -119,6 +124,12 @@ class Runner:
             corpus = [c for c in corpus if r.chance(self.tier.corpus_fraction)]
         enabled = sorted(workload.FAMILIES)
         gen, fam_of = workload.generate(self.seed, self.tier.n_generated, enabled)
+        # programs that would talk to each other through CPython's typing alias cache are not
+        # unrelated (DESIGN.md section 3); decided statically, from the sources alone
+        conflicts = workload.typing_cache_conflicts(list(corpus) + sorted(gen.items()))
+        corpus = [c for c in corpus if c[0] not in conflicts]
+        gen = {k: v for k, v in gen.items() if k not in conflicts}
+        self.stats["programs_dropped_typing_cache_conflict"] = len(conflicts)
         self.programs = dict(corpus)
         self.programs.update(gen)
         self.family_of = {pid: ["snippet:" + pid.split("::")[0]] for pid, _ in corpus}
@@ -209,11 +220,15 @@ class Runner:
         picked = r.sample(pool, min(self.tier.files_len, len(pool)))
         root = os.path.join(self.scratch, "files%d" % idx)
         jobs = []
-        ops_each = [{"op": "files", "mode": "each", "pids": [p], "root": root + "e", "isolate": True} for p in picked]
+        import re as _re
+        # file names (hence module names and the sorted checking order) are fixed per group so
+        # that the per-file and the all-in-one invocation see the very same files
+        names = {p: "m%03d_%s.py" % (k, _re.sub(r"\W", "_", p)[-40:]) for k, p in enumerate(picked)}
+        ops_each = [{"op": "files", "mode": "each", "pids": [p], "root": root + "e", "isolate": True, "names": names} for p in picked]
         jobs.append(Job("files/%d/each" % idx, "files", h, 0, ops_each, {"mode": "each", "group": idx}))
         mode = r.choice(["all", "all", "n2"])
         order = list(picked)
-        ops_all = [{"op": "files", "mode": mode, "pids": order, "root": root + "a", "isolate": True}]
+        ops_all = [{"op": "files", "mode": mode, "pids": order, "root": root + "a", "isolate": True, "names": names}]
         jobs.append(Job("files/%d/%s" % (idx, mode), "files", h, 0, ops_all, {"mode": mode, "group": idx}))
         return jobs
 
@@ -225,6 +240,9 @@ class Runner:
         self.log("seed=%d tier=%s programs=%d (corpus %d, generated %d) hash_pool=%s layout_pool=%s workers=%d aslr_pinned=%s" % (
             self.seed, tier.name, len(self.order), self.stats["programs_corpus"], self.stats["programs_generated"],
             [0] + hashes, [0] + layouts, self.workers, bool(launch.aslr_prefix())))
+        import glob
+        for old in glob.glob(os.path.join(VERIF, "replays", "C10-%d-*.json" % self.seed)):
+            os.unlink(old)
         self.pyc = launch.PycCache("c10")
         self.scratch = os.path.join(self.pyc.dir, "scratch")
         os.makedirs(self.scratch, exist_ok=True)
@@ -260,6 +278,7 @@ class Runner:
             for e in events:
                 if e.get("op") == "check":
                     iso[job.meta["pass"]][e["pid"]] = e["obs"]
+                    self.iso_job_of[job.meta["pass"] + (e["pid"],)] = name
         self.fault_counts["hash_seed_change"] += len(hashes)
         self.fault_counts["heap_layout_shift"] += len(layouts)
         self.log("isolated passes done: %d worlds" % len(res))
@@ -287,7 +306,8 @@ class Runner:
                     continue
                 d = oracle.compare(ref[pid], o)
                 if d:
-                    leads.append({"pid": pid, "mechanism": mech, "hash": h, "layout": layout, "diff": d, "world": "iso"})
+                    leads.append({"pid": pid, "mechanism": mech, "hash": h, "layout": layout, "diff": d,
+                                  "world_a": self.iso_job_of[(0, 0, pid)], "world_b": self.iso_job_of[(h, layout, pid)]})
 
         # 2. history worlds and file-route worlds
         jobs = [self.hist_job(i, hashes, layouts) for i in range(tier.n_hist)]
@@ -331,7 +351,8 @@ class Runner:
                         d = oracle.compare(expect, e["obs"])
                         if d:
                             leads.append({"pid": pid, "mechanism": "history", "hash": job.hash, "layout": job.layout, "diff": d,
-                                          "world": name, "index": e["i"], "recheck": op == "recheck"})
+                                          "world_a": self.iso_job_of[job.meta["pass"] + (pid,)], "world_b": name,
+                                          "index": e["i"], "recheck": op == "recheck"})
                     if op == "check":
                         seen_before.append(pid)
                         prefix.update(pid.encode())
@@ -364,7 +385,7 @@ class Runner:
                         d = oracle.compare(each[pid], o)
                         if d:
                             leads.append({"pid": pid, "mechanism": "file_history", "hash": job.hash, "layout": 0, "diff": d,
-                                          "world": job.name, "each_world": "files/%d/each" % g})
+                                          "world_a": "files/%d/each" % g, "world_b": job.name})
         self.stats["ordered_family_pairs_covered"] = len(pair_cov)
         self.stats["distinct_states"] = len(state_keys) + sum(len(t) for t in iso.values())
         self.res2 = res2
@@ -406,215 +427,249 @@ class Runner:
             key = (lead["pid"], lead["mechanism"], lead["diff"]["level"], json.dumps(lead["diff"]["where"][:3]))
             groups.setdefault(key, []).append(lead)
         self.stats["leads"] = len(leads)
+        self.stats["lead_groups"] = len(groups)
         if os.environ.get("VERIF_DUMP_LEADS"):
             with open(os.environ["VERIF_DUMP_LEADS"], "w") as f:
                 json.dump(leads, f, indent=1)
-            return [], []
-        self.stats["lead_groups"] = len(groups)
-        # a history-kind group whose program already differs in isolation under the same level is
-        # explained by the seed, not the history (cannot happen by construction: history worlds are
-        # compared with the isolated pass of the same seeds) - kept as a sanity counter
         violations, known = [], []
         minimised = 0
+        # one representative per (program, level, position): the same defect usually shows in
+        # several worlds; mechanisms are tried in the order hash, layout, history, file_history
+        rank = {"hash": 0, "layout": 1, "history": 2, "file_history": 3}
+        by_site = collections.OrderedDict()
         for key, group in groups.items():
+            site = (key[0], key[2], key[3])
+            cur = by_site.get(site)
+            if cur is None or rank[group[0]["mechanism"]] < rank[cur[0]["mechanism"]]:
+                by_site[site] = group
+        self.stats["lead_sites"] = len(by_site)
+        max_sites = int(os.environ.get("VERIF_C10_MAXSITES", 30))
+        for site, group in by_site.items():
+            if len(violations) >= max_sites:
+                self.stats["lead_sites_not_triaged"] += 1
+                continue
             lead = group[0]
             v = {"property": PROP, "pid": lead["pid"], "mechanism": lead["mechanism"], "level": lead["diff"]["level"],
                  "where": lead["diff"]["where"], "occurrences": len(group), "hash": lead["hash"], "layout": lead["layout"]}
-            if v["level"] == "revealed":
-                # seen only through the annotation channel: must be confirmed through real diagnostics
-                conf = self.confirm_revealed(lead)
-                if conf is None:
+            try:
+                case = self.case_for(lead)
+                budget_ok = minimised < self.tier.max_minimise and time.time() - self.t0 < self.tier.wall_budget
+                case, d = self.settle(case, lead, v, shrink=budget_ok)
+                if budget_ok:
+                    minimised += 1
+            except launch.HarnessError as e:
+                self.harness_errors.append("triage %s: %s" % (lead["pid"], e))
+                continue
+            if d is None:
+                if v.get("unconfirmed"):
                     self.stats["annotation_leads_unconfirmed"] += 1
                     continue
-                self.stats["annotation_leads_confirmed"] += 1
-                v.update(conf)
+                self.harness_errors.append("lead for %s (%s) did not reproduce from its own world specs" % (lead["pid"], lead["mechanism"]))
+                continue
+            v["level"], v["where"] = d["level"], d["where"]
+            v["message_heads"] = oracle.diff_heads(d)
             entry = findings_mod.find(known_entries, v)
             if entry is not None:
                 known.append((entry, v))
                 continue
-            if minimised < self.tier.max_minimise and time.time() - self.t0 < self.tier.wall_budget:
-                try:
-                    self.minimise(lead, v)
-                    minimised += 1
-                except launch.HarnessError as e:
-                    self.harness_errors.append("minimise: %s" % e)
-            else:
-                self.build_unminimised(lead, v)
-            if v.get("not_reproduced"):
-                self.harness_errors.append("lead for %s did not reproduce in a fresh world (non-determinism?)" % v["pid"])
-                continue
-            # minimisation may have produced a smaller/different program: check the list again
-            entry = findings_mod.find(known_entries, v)
-            if entry is not None:
-                known.append((entry, v))
-                continue
+            self.write_replay(case, lead, v, d)
             violations.append(v)
         return violations, known
 
-    # -- world construction for a lead ------------------------------------------------
-    def lead_worlds(self, lead, program=None, history=None):
-        """(spec_a, hash_a, spec_b, hash_b): a = the isolated baseline, b = the perturbed world."""
+    # -- cases ----------------------------------------------------------------------------
+    def case_for(self, lead):
+        """A case = two exact world specs (a = baseline, b = perturbed) as they ran, cut after the
+        target operation.  Worlds are deterministic, so a case reproduces by construction."""
         pid = lead["pid"]
-        programs = dict(self.programs)
-        if program is not None:
-            programs[pid] = program
-        mech = lead["mechanism"]
-        if mech in ("hash", "layout"):
-            ops = [{"op": "check", "pid": pid, "isolate": True}]
-            a = (make_spec(programs, ops, 0), 0)
-            b = (make_spec(programs, ops, lead["layout"]), lead["hash"])
-        elif mech == "history":
-            if history is None:
-                job = self.res2[lead["world"]][0]
-                history = [op for op in job.ops[: lead["index"]]]
-                final = dict(job.ops[lead["index"]])
-            else:
-                final = lead["final_op"]
-            lead["final_op"] = final
-            a = (make_spec(programs, [{"op": "check", "pid": pid, "isolate": True}], lead["layout"]), lead["hash"])
-            b = (make_spec(programs, list(history) + [final], lead["layout"]), lead["hash"])
-            lead["history"] = history
-        elif mech == "file_history":
-            job = self.res2[lead["world"]][0]
-            op = dict(job.ops[0])
-            if history is not None:
-                op["pids"] = list(history) + [pid]
-            else:
-                history = [p for p in op["pids"] if p != pid]
-                # keep the original order
-                op["pids"] = list(job.ops[0]["pids"])
-            lead["history"] = history
-            root = os.path.join(self.scratch, "lead")
-            opa = {"op": "files", "mode": "each", "pids": [pid], "root": root + "a", "isolate": True}
-            op["root"] = root + "b"
-            a = (make_spec(programs, [opa], 0), lead["hash"])
-            b = (make_spec(programs, [op], 0), lead["hash"])
-        else:
-            raise ValueError(mech)
-        return a[0], a[1], b[0], b[1]
+        ja = self.jobs[lead["world_a"]]
+        jb = self.jobs[lead["world_b"]]
 
-    def observe_pair(self, worlds_list):
-        """Run [(spec_a, ha, spec_b, hb, pid)] in parallel; returns list of (obs_a, obs_b)."""
-        jobs = []
-        for k, (sa, ha, sb, hb, pid) in enumerate(worlds_list):
-            jobs.append((k, "a", sa, ha))
-            jobs.append((k, "b", sb, hb))
-        results = {}
+        def side(job, index=None):
+            ops = list(job.ops)
+            if index is None:
+                for k, op in enumerate(ops):
+                    if op.get("pid") == pid or pid in op.get("pids", []):
+                        index = k
+            return {"hash": job.hash, "layout": job.layout, "ops": ops, "target": index}
+
+        idx_b = None
+        if lead["mechanism"] == "history":
+            # event index i == op index (one event per op, after the boot event)
+            idx_b = lead["index"]
+        return {"pid": pid, "programs": dict(self.programs), "a": side(ja), "b": side(jb, idx_b)}
+
+    def side_spec(self, case, side):
+        s = case[side]
+        return make_spec(case["programs"], s["ops"], s["layout"]), s["hash"]
+
+    def eval_cases(self, cases, use_ann=True):
+        """-> list of diff-or-None.  Identical (spec, hash) worlds are executed once."""
+        todo = {}
+        keys = []
+        for c in cases:
+            pair = []
+            for side in ("a", "b"):
+                spec, h = self.side_spec(c, side)
+                k = hashlib.sha256((json.dumps(spec, sort_keys=True) + "|%d" % h).encode()).hexdigest()
+                if k not in self.world_memo:
+                    todo[k] = (spec, h)
+                pair.append(k)
+            keys.append(pair)
 
         def one(item):
-            k, side, spec, h = item
+            k, (spec, h) = item
             events, end = launch.run_world("c10", spec, h, self.pyc.dir, timeout=600)
-            return k, side, events
+            return k, events
 
-        with concurrent.futures.ThreadPoolExecutor(max_workers=self.workers) as ex:
-            for k, side, events in ex.map(one, jobs):
-                results[(k, side)] = events
-                self.worlds_run += 1
+        if todo:
+            with concurrent.futures.ThreadPoolExecutor(max_workers=self.workers) as ex:
+                for k, events in ex.map(one, list(todo.items())):
+                    self.worlds_run += 1
+                    self.world_memo[k] = events
         out = []
-        for k, (sa, ha, sb, hb, pid) in enumerate(worlds_list):
-            out.append((oracle.target_obs(results[(k, "a")], pid), oracle.target_obs(results[(k, "b")], pid)))
+        for c, (ka, kb) in zip(cases, keys):
+            oa = oracle.target_obs(self.world_memo[ka], c["pid"], c["a"]["target"])
+            ob = oracle.target_obs(self.world_memo[kb], c["pid"], c["b"]["target"])
+            if oa is None or ob is None or "diags" not in oa or "diags" not in ob:
+                out.append(None)
+                continue
+            d = oracle.compare(oa, ob, use_ann=use_ann)
+            if d:
+                d["obs_a"], d["obs_b"] = oracle.brief(oa), oracle.brief(ob)
+            out.append(d)
+        if len(self.world_memo) > 400:
+            self.world_memo.clear()
         return out
 
-    def still_differs(self, lead, level, candidates):
-        """candidates: list of dict(program=..., history=...) -> list of bool."""
-        wl = []
-        for c in candidates:
-            sa, ha, sb, hb = self.lead_worlds(dict(lead), c.get("program"), c.get("history"))
-            wl.append((sa, ha, sb, hb, lead["pid"]))
-        res = []
-        for oa, ob in self.observe_pair(wl):
-            if oa is None or ob is None or "diags" not in oa or "diags" not in ob:
-                res.append(False)
-                continue
-            d = oracle.compare(oa, ob)
-            res.append(bool(d) and oracle.LEVELS.index(d["level"]) <= oracle.LEVELS.index(level))
-        return res
+    def settle(self, case, lead, v, shrink):
+        """Reproduce, confirm (annotation leads), shrink.  Returns (case, diff or None)."""
+        (d,) = self.eval_cases([case])
+        if d is None:
+            return case, None
+        if d["level"] == "revealed":
+            case2 = self.confirm_revealed(case, d)
+            if case2 is None:
+                v["unconfirmed"] = True
+                return case, None
+            case = case2
+            (d,) = self.eval_cases([case], use_ann=False)
+            v["confirmed_via"] = "reveal_type() wrapped around the differing name"
+        level = d["level"]
 
-    def confirm_revealed(self, lead):
-        """Rewrite the program so that the differing Name is wrapped in a real reveal_type() and
+        def ok(diff):
+            return diff is not None and oracle.LEVELS.index(diff["level"]) <= oracle.LEVELS.index(level) and diff["level"] != "revealed"
+
+        def test(cands):
+            return [ok(x) for x in self.eval_cases(cands, use_ann=False)]
+
+        if not shrink:
+            return case, d
+        pid = case["pid"]
+
+        def with_ops(c, side, prefix):
+            c2 = dict(c)
+            target = c[side]["ops"][c[side]["target"]]
+            c2[side] = dict(c[side], ops=list(prefix) + [target], target=len(prefix))
+            return c2
+
+        # 0. drop everything after the target operation
+        cut = case
+        for side in ("a", "b"):
+            cut = with_ops(cut, side, cut[side]["ops"][: cut[side]["target"]])
+        if test([cut])[0]:
+            case = cut
+        else:
+            self.stats["fragile_cases_kept_uncut"] += 1
+            return case, d
+        # 1. canonical small forms first (both sides just the target)
+        small = with_ops(with_ops(case, "a", []), "b", [])
+        if lead["mechanism"] in ("hash", "layout") and test([small])[0]:
+            case = small
+        else:
+            for side in ("b", "a"):
+                prefix = case[side]["ops"][:-1]
+                if not prefix:
+                    continue
+                if test([with_ops(case, side, [])])[0]:
+                    case = with_ops(case, side, [])
+                    continue
+                kept = ddmin(prefix, lambda cands, side=side: test([with_ops(case, side, c) for c in cands]))
+                case = with_ops(case, side, kept)
+        # 2. for the file route the history is the pid list of the single op
+        if lead["mechanism"] == "file_history":
+            op = case["b"]["ops"][-1]
+            others = [p for p in op["pids"] if p != pid]
+
+            def with_pids(keep):
+                c2 = dict(case)
+                keepset = set(keep) | {pid}
+                c2["b"] = dict(case["b"], ops=[dict(op, pids=[p for p in op["pids"] if p in keepset])])
+                return c2
+            kept = ddmin(others, lambda cands: test([with_pids(c) for c in cands]))
+            case = with_pids(kept)
+        # 3. shrink the program by top-level units
+        units = oracle.split_units(case["programs"][pid])
+        if len(units) > 1:
+            def with_program(us):
+                code = oracle.join_units(us)
+                if code is None:
+                    return None
+                c2 = dict(case)
+                c2["programs"] = dict(case["programs"])
+                c2["programs"][pid] = code
+                return c2
+
+            def test_units(cands):
+                cs = [with_program(c) for c in cands]
+                live = [c for c in cs if c is not None]
+                res = iter(test(live)) if live else iter(())
+                return [next(res) if c is not None else False for c in cs]
+            kept = ddmin(units, test_units)
+            c2 = with_program(kept)
+            if c2 is not None and test([c2])[0]:
+                case = c2
+        (d2,) = self.eval_cases([case], use_ann=False)
+        return case, (d2 if ok(d2) else d)
+
+    def confirm_revealed(self, case, d):
+        """Rewrite the program so that a differing Name is wrapped in a real reveal_type() and
         re-run both worlds; a violation only if real diagnostics differ."""
-        pid = lead["pid"]
-        code = self.programs[pid]
-        for (line, col, name) in [tuple(w[:3]) for w in lead["diff"]["where"][:4]]:
-            new = oracle.wrap_reveal(code, line, col, name)
+        pid = case["pid"]
+        code = case["programs"][pid]
+        cands = []
+        for w in d["where"][:4]:
+            new = oracle.wrap_reveal(code, w[0], w[1], w[2])
             if new is None:
                 continue
-            try:
-                sa, ha, sb, hb = self.lead_worlds(dict(lead), new)
-                (oa, ob), = self.observe_pair([(sa, ha, sb, hb, pid)])
-            except launch.HarnessError as e:
-                self.harness_errors.append("confirm: %s" % e)
-                return None
-            if oa is None or ob is None or "diags" not in oa or "diags" not in ob:
-                continue
-            d = oracle.compare(oa, ob, use_ann=False)
-            if d:
-                lead["program_override"] = new
-                lead["diff"] = d
-                return {"level": d["level"], "where": d["where"], "confirmed_via": "reveal_type(%s) at line %d" % (name, line)}
+            c2 = dict(case)
+            c2["programs"] = dict(case["programs"])
+            c2["programs"][pid] = new
+            cands.append(c2)
+        if not cands:
+            return None
+        for c2, diff in zip(cands, self.eval_cases(cands, use_ann=False)):
+            if diff is not None:
+                return c2
         return None
 
-    def minimise(self, lead, v):
-        pid = lead["pid"]
-        program = lead.get("program_override") or self.programs[pid]
-        level = v["level"]
-        history = None
-        first = self.still_differs(lead, level, [{"program": program}])
-        if not first[0]:
-            v["not_reproduced"] = True
-            return
-        if lead["mechanism"] == "history":
-            self.lead_worlds(lead, program)  # fills lead["history"], lead["final_op"]
-            hist0 = lead["history"]
-            history = ddmin(hist0, lambda cands: self.still_differs(lead, level, [{"program": program, "history": c} for c in cands]))
-            lead["history"] = history
-        elif lead["mechanism"] == "file_history":
-            self.lead_worlds(lead, program)
-            hist0 = lead["history"]
-            history = ddmin(hist0, lambda cands: self.still_differs(lead, level, [{"program": program, "history": c} for c in cands]))
-            lead["history"] = history
-        # shrink the program: drop top-level blocks, then statements
-        units = oracle.split_units(program)
-        if len(units) > 1:
-            def test_units(cands):
-                progs = [oracle.join_units(c) for c in cands]
-                ok = [p is not None for p in progs]
-                live = [{"program": p, "history": history} for p in progs if p is not None]
-                got = iter(self.still_differs(lead, level, live)) if live else iter(())
-                return [next(got) if o else False for o in ok]
-            units = ddmin(units, test_units)
-            smaller = oracle.join_units(units)
-            if smaller is not None:
-                program = smaller
-        self.write_replay(lead, v, program, history, minimised=True)
-
-    def build_unminimised(self, lead, v):
-        program = lead.get("program_override") or self.programs[lead["pid"]]
-        if lead["mechanism"] in ("history", "file_history"):
-            self.lead_worlds(lead, program)
-        self.write_replay(lead, v, program, lead.get("history"), minimised=False)
-
-    def write_replay(self, lead, v, program, history, minimised):
-        sa, ha, sb, hb = self.lead_worlds(dict(lead), program, history)
-        (oa, ob), = self.observe_pair([(sa, ha, sb, hb, lead["pid"])])
-        d = oracle.compare(oa or {}, ob or {}) if oa and ob and "diags" in oa and "diags" in ob else None
-        if not d:
-            v["not_reproduced"] = True
-            return
-        v["level"] = d["level"]
-        v["where"] = d["where"]
-        v["program"] = program
-        v["history_len"] = len(history) if history is not None else 0
-        # scrub scratch roots so that replay is location independent
+    def write_replay(self, case, lead, v, d):
+        pid = case["pid"]
+        worlds = []
+        for side, label in (("a", "baseline"), ("b", "perturbed")):
+            spec, h = self.side_spec(case, side)
+            for op in spec["ops"]:
+                if "root" in op:
+                    op["root"] = "<scratch>/" + os.path.basename(op["root"])
+            worlds.append({"label": label, "hash": h, "spec": spec, "target": case[side]["target"]})
+        v["program"] = case["programs"][pid]
+        v["history_len"] = len(case["b"]["ops"]) - 1
         rep = {
-            "property": PROP, "seed": self.seed, "tier": self.tier.name, "pid": lead["pid"], "mechanism": lead["mechanism"],
-            "level": d["level"], "where": d["where"], "minimised": minimised,
-            "worlds": [{"label": "baseline (isolated)", "hash": ha, "spec": sa}, {"label": "perturbed", "hash": hb, "spec": sb}],
-            "observed": {"baseline": oracle.brief(oa), "perturbed": oracle.brief(ob)},
-            "detail": d.get("detail"),
+            "property": PROP, "seed": self.seed, "tier": self.tier.name, "pid": pid, "mechanism": lead["mechanism"],
+            "level": d["level"], "where": d["where"], "worlds": worlds,
+            "observed": {"baseline": d.get("obs_a"), "perturbed": d.get("obs_b")}, "detail": d.get("detail"),
         }
         os.makedirs(os.path.join(VERIF, "replays"), exist_ok=True)
-        tag = hashlib.sha256(json.dumps([lead["pid"], lead["mechanism"], d["level"], d["where"]], sort_keys=True).encode()).hexdigest()[:10]
+        tag = hashlib.sha256(json.dumps([pid, lead["mechanism"], d["level"], d["where"]], sort_keys=True).encode()).hexdigest()[:10]
         path = os.path.join(VERIF, "replays", "C10-%d-%s.json" % (self.seed, tag))
         with open(path, "w") as f:
             json.dump(rep, f, indent=1, sort_keys=True)
@@ -651,7 +706,8 @@ class Runner:
                 "worlds": self.worlds_run,
                 "worlds_per_hour": round(self.worlds_run / wall * 3600) if wall else 0,
                 "program_checks_per_hour": round(self.checks_run / wall * 3600) if wall else 0,
-                "programs": dict(self.stats),
+                "programs": len(getattr(self, "usable", ())),
+                "stats": dict(self.stats),
                 "perturbations_fired": dict(self.fault_counts),
                 "fault_kinds_not_present_in_system": ["message loss/duplication/reordering", "partitions", "clock skew", "timers",
                                                       "disk write faults (C10 reads sources only)", "thread interleavings"],
@@ -707,7 +763,7 @@ def replay(path):
         obs = []
         for w in specs:
             events, end = launch.run_world("c10", w["spec"], w["hash"], pyc.dir)
-            obs.append(oracle.target_obs(events, rep["pid"]))
+            obs.append(oracle.target_obs(events, rep["pid"], w.get("target")))
             print("world %-22s hash=%s digest=%s" % (w["label"], w["hash"], end["digest"]))
         d = oracle.compare(obs[0] or {}, obs[1] or {}) if obs[0] and obs[1] and "diags" in obs[0] and "diags" in obs[1] else None
         if d:
